@@ -1,6 +1,7 @@
 import ZenonVerif.Model.Codec
 import ZenonVerif.Model.CodecPB
 import ZenonVerif.Model.CodecText
+import ZenonVerif.Model.CodecRLP
 import Driver.Core
 /-
 Driver handler of the `codec` stream (C13).
@@ -97,6 +98,16 @@ def showMomentum (m : Momentum) : String :=
     showHex m.signature, toString m.content.length] ++
     m.content.flatMap (fun h => [showHex h.address, showHex h.hash, toString h.height]))
 
+mutual
+def showRItem : RItem → String
+  | .str b => showHex b
+  | .list l => "[" ++ showRItems l ++ "]"
+def showRItems : List RItem → String
+  | [] => ""
+  | [x] => showRItem x
+  | x :: y :: r => showRItem x ++ "," ++ showRItems (y :: r)
+end
+
 /-- oracle for the hash parameter: the pairs (input, digest) supplied by the harness -/
 def oracleH (tbl : List (Bytes × Bytes)) (x : Bytes) : Bytes :=
   match tbl.find? (fun p => p.1 == x) with
@@ -138,6 +149,28 @@ def pureCodec : List String → Option String
       | none => pure "err"
       | some none => pure "panic"
       | some (some m) => pure ("ok " ++ showMomentum m)
+  | "ab-rlp" :: toks => do
+      let (b, rest) ← parseBlock 64 toks
+      if !rest.isEmpty then none
+      match rlpBlock b with
+      | some e => pure (showHex e)
+      | none => pure "err"
+  | "dm-rlp" :: toks => do
+      let (m, rest) ← parseMomentum toks
+      match rest with
+      | n :: rest => do
+        let n ← n.toNat?
+        let (bs, rest) ← parseBlocks 64 n rest
+        if !rest.isEmpty then none
+        match rlpDetailed m bs with
+        | some e => pure (showHex e)
+        | none => pure "err"
+      | [] => none
+  | ["rlp-tree", data] => do
+      let d ← ofHex data
+      match rlpDec d with
+      | some x => pure (showRItem x)
+      | none => pure "err"
   | ["amount-json", a] => do
       let a ← a.toInt?
       let s := showAmount a
